@@ -58,7 +58,10 @@ for pid in ids:
             rc1, out1 = sh(cmd)
             res["patched_rc"] = rc1
             res["patched_tail"] = out1[-600:]
-            res["confirmed"] = bool(res["applies"] and res["builds"] and res["suite_extra_failures"] == 0 and rc0 == 0 and rc1 != 0 and ("FAIL" in out1))
+            passed0 = ("FAIL" not in out0) and bool(re.search(r"^(ok\s|PASS)", out0, re.M))
+            failed1 = "FAIL" in out1
+            res["unpatched_passes"], res["patched_fails"] = passed0, failed1
+            res["confirmed"] = bool(res["applies"] and res["builds"] and res["suite_extra_failures"] == 0 and passed0 and failed1)
         except Exception as e:
             res["error"] = str(e)
             res["confirmed"] = False
